@@ -14,6 +14,7 @@ import (
 	"iter"
 	"log"
 	"maps"
+	"math"
 	"math/bits"
 	"os"
 	"path"
@@ -341,6 +342,18 @@ func H_STD() {
 		vx.Assert("STD", err4 == nil && k4.Equals(k0), "reassembled from its halves")
 		_, err5 := crypto.UnmarshalSecp256k1PublicKey(append([]byte{7}, pk[1:33]...))
 		vx.Assert("STD", err5 != nil, "prefix 07 is not a key")
+	case 11: // integers through float64 (math.Max as a maximum of ints is exact only below 2^53)
+		a, b := vx.Int("a"), vx.Int("b")
+		vx.Assume(a >= 0 && b >= 0 && a < 1<<62 && b < 1<<62)
+		m := int(math.Max(float64(a), float64(b)))
+		n := int(math.Min(float64(a), float64(b)))
+		if a < 1<<53 && b < 1<<53 {
+			vx.Assert("STD", m == max(a, b) && n == min(a, b), "math.Max / math.Min of small integers are exact")
+		} else {
+			vx.Assert("STD", m >= n && (m >= a || a-m < 1024) && (m >= b || b-m < 1024), "rounding moves a 62-bit integer by less than 2^10")
+		}
+		c9 := 1<<53 + 1 + x - x
+		vx.Assert("STD", int(math.Max(float64(c9), 0)) == 1<<53, "2^53+1 rounds to 2^53")
 	}
 	vx.Cover("std-done")
 }
